@@ -69,7 +69,7 @@ CHECKS["C13"] = dict(
           "unchanged; manager: OnReady listeners registered before Start are called exactly once with the migration outcome. Non-trivial: every case; distinct = "
           "status multiset x size class x corrupt."),
     parts=[dict(test="TestC13Migrate", quick=96, thorough=4000, per_shard=6)],
-    floors=dict(any={"TestC13Migrate.records": 500, "TestC13Migrate.corrupt_stores": 3, "TestC13Migrate.during_attempts": 100, "TestC13Migrate.followups": 50}),
+    floors=dict(any={"TestC13Migrate.records": 500, "TestC13Migrate.raw_records_compared": 500, "TestC13Migrate.corrupt_stores": 3, "TestC13Migrate.during_attempts": 100, "TestC13Migrate.followups": 50}),
     assumptions=["internal/cborx encodes the version-2 record layout (field names of ChannelStateV2, tuple-encoded stages) correctly"],
 )
 
@@ -89,7 +89,7 @@ CHECKS["C03"] = dict(
         dict(test="TestC03Mgr", quick=96, thorough=4800, per_shard=12),
     ],
     floors=dict(any={"TestC03Init.both_signals_cases": 100, "TestC03Init.never_accepted_cases": 10, "TestC03Resp.finalizing_cases": 20,
-                     "TestC03Resp.release_from_finalizing": 20, "TestC03Step.steps_applied": 4000, "TestC03Mgr.holding_updates": 80, "TestC03Mgr.manager_releases": 60}),
+                     "TestC03Resp.release_from_finalizing": 20, "TestC03Step.steps_applied": 4000, "TestC03Mgr.holding_updates": 80, "TestC03Mgr.manager_releases": 60, "TestC03Mgr.completion_reported_again_while_finalizing": 20}),
     assumptions=["event classes (lifecycle/bookkeeping/ending) are read off the property statement, see chk/hist_test.go eventClass"],
 )
 
@@ -121,7 +121,7 @@ CHECKS["C14"] = dict(
     parts=[dict(test="TestC14Monitor", quick=600, thorough=50000, per_shard=60),
         dict(test="TestC14Mgr", quick=64, thorough=3200, per_shard=8)],
     floors=dict(any={"TestC14Monitor.queued_cases": 50, "TestC14Monitor.budget_closes": 50, "TestC14Monitor.deadline_cases.accept-timeout": 50,
-                     "TestC14Monitor.deadline_cases.complete-timeout": 10, "TestC14Monitor.disabled_cases": 20, "TestC14Monitor.stopped_channels": 200, "TestC14Mgr.mgr_persistent_failures": 20, "TestC14Mgr.mgr_recovered": 20}),
+                     "TestC14Monitor.deadline_cases.complete-timeout": 10, "TestC14Monitor.disabled_cases": 20, "TestC14Monitor.stopped_channels": 200, "TestC14Mgr.mgr_persistent_failures": 20, "TestC14Mgr.mgr_recovered": 20, "TestC14Mgr.accept_processed_during_open": 6}),
     assumptions=["virtual time (testing/synctest): timer expirations are exact; the monitor API double is the only observation point"],
 )
 
@@ -138,7 +138,7 @@ CHECKS["C15"] = dict(
         dict(test="TestC15Send", quick=320, thorough=30000, per_shard=32),
         dict(test="TestC15Inbound", quick=96, thorough=6000, per_shard=10),
     ],
-    floors=dict(any={"TestC15Send.successful_sends": 100, "TestC15Send.exhausted_sends": 40, "TestC15Send.cancelled_sends": 20, "TestC15Send.write_failures": 20, "TestC15Send.short_open_timeout_cases": 20,
+    floors=dict(any={"TestC15Send.successful_sends": 100, "TestC15Send.exhausted_sends": 40, "TestC15Send.cancelled_sends": 20, "TestC15Send.write_failures": 20, "TestC15Send.short_open_timeout_cases": 20, "TestC15Send.second_sends": 250,
                      "TestC15Inbound.malformed_streams": 30, "TestC15Inbound.inbound_messages": 120}),
     assumptions=["libp2p mocknet streams stand in for real transports; timing is virtual"],
 )
@@ -212,9 +212,10 @@ CHECKS["C16"] = dict(
           "(operation, channel) multiset (nothing for unknown/foreign/cleaned-up), control calls must name the channel's current request, hook snapshot shows no route or "
           "tracking after cleanup, persistence options exist exactly for live channels with a store. distinct = per-channel (requester, #requests, cleaned, store) shape."),
     parts=[dict(test="TestC16Route", quick=200, thorough=12000, per_shard=25),
-        dict(test="TestC16StaleOpen", quick=48, thorough=2400, per_shard=12)],
+        dict(test="TestC16StaleOpen", quick=48, thorough=2400, per_shard=12),
+        dict(test="TestC16CleanupInHook", quick=16, thorough=320, per_shard=8)],
     floors=dict(any={"TestC16Route.callbacks": 4000, "TestC16Route.cleanups": 60, "TestC16Route.restarts": 200, "TestC16Route.role_confused": 150,
-                     "TestC16Route.offwire_blocks": 80, "TestC16Route.refused_opens": 20, "TestC16Route.foreign_requests": 150, "TestC16Route.completions": 100, "TestC16StaleOpen.abandoned_opens": 20, "TestC16StaleOpen.controls_after_abandoned_open": 100}),
+                     "TestC16Route.offwire_blocks": 80, "TestC16Route.refused_opens": 20, "TestC16Route.foreign_requests": 150, "TestC16Route.completions": 100, "TestC16StaleOpen.abandoned_opens": 20, "TestC16StaleOpen.controls_after_abandoned_open": 100, "TestC16CleanupInHook.cleanup_completed_inside_hook": 16}),
     assumptions=["the graphsync double runs the outgoing-request hook before Request returns, as go-graphsync v0.18 does"],
 )
 
@@ -250,7 +251,7 @@ CHECKS["C11"] = dict(
         dict(test="TestC11Step", quick=16, thorough=160, per_shard=4),
     ],
     floors=dict(any={"TestC11TwoParty.actions": 3000, "TestC11TwoParty.voucher_traffic_between_pauses": 200, "TestC11TwoParty.resume_while_other_paused": 500, "TestC11TwoParty.with_responder_completion": 50,
-                     "TestC11Step.applied": 150, "TestC11Step.ignored": 700}),
+                     "TestC11Step.applied": 150, "TestC11Step.ignored": 700, "TestC11Step.derived_flag_checks": 1500}),
     assumptions=["messages are delivered before the next action (quiescence between actions); delayed/reordered delivery is exercised by the end-to-end engine"],
 )
 
@@ -267,7 +268,7 @@ CHECKS["C09"] = dict(
         dict(test="TestC09Chan", quick=324, thorough=9720, per_shard=54),
         dict(test="TestC09Close", quick=224, thorough=9800, per_shard=28),
     ],
-    floors=dict(any={"TestC09Chan.endings": 300, "TestC09Close.closes": 120, "TestC09Close.nonterminal_graphsync_errors": 8}),
+    floors=dict(any={"TestC09Chan.endings": 300, "TestC09Close.closes": 120, "TestC09Close.nonterminal_graphsync_errors": 8, "TestC09Close.restarted_with_store_before_ending": 4}),
     assumptions=["'promptly' is decided on the virtual clock: the call must have returned when the bubble is idle 2 virtual minutes later"],
 )
 
@@ -283,9 +284,10 @@ CHECKS["C10"] = dict(
     parts=[
         dict(test="TestC10Restart", quick=384, thorough=19200, per_shard=48),
         dict(test="TestC10Cleanup", quick=12, thorough=120, per_shard=6),
+        dict(test="TestC10Overlap", quick=16, thorough=320, per_shard=4),
     ],
-    floors=dict(any={"TestC10Restart.restarts": 250, "TestC10Restart.own_side_finished_before_restart": 60, "TestC10Restart.skip_checks": 60, "TestC10Restart.cancel_then_request": 20, "TestC10Restart.queued_message_checks": 8,
-                     "TestC10Cleanup.cleanup_restarts": 12}),
+    floors=dict(any={"TestC10Restart.restarts": 250, "TestC10Restart.own_side_finished_before_restart": 60, "TestC10Restart.skip_checks": 60, "TestC10Restart.cancel_then_request": 12, "TestC10Restart.queued_message_checks": 8,
+                     "TestC10Cleanup.cleanup_restarts": 12, "TestC10Overlap.overlapping_restarts": 30}),
     assumptions=["restarts are issued at quiescent points (the skip-count clause is stated for recorded progress)"],
 )
 
@@ -299,7 +301,7 @@ CHECKS["C17"] = dict(
           "defining effect (else it was an ignored event); byte totals move only on progress events; a per-transfer subscriber gets exactly its channel's events in the same order "
           "and is released at termination (hook); a subscriber is never called again once its unsubscribe returned and the queue drained. distinct = statuses reached x sizes."),
     parts=[dict(test="TestC17Subs", quick=160, thorough=9000, per_shard=10)],
-    floors=dict(any={"TestC17Subs.events_checked": 8000, "TestC17Subs.per_transfer_checked": 80, "TestC17Subs.unsubscribed_checked": 100, "TestC17Subs.late_subscribers": 100, "TestC17Subs.opened_during_terminal_delivery": 15, "TestC17Subs.inbound_channel_reusing_our_transfer_id": 20}),
+    floors=dict(any={"TestC17Subs.events_checked": 4500, "TestC17Subs.per_transfer_checked": 80, "TestC17Subs.unsubscribed_checked": 100, "TestC17Subs.late_subscribers": 100, "TestC17Subs.opened_during_terminal_delivery": 15, "TestC17Subs.inbound_channel_reusing_our_transfer_id": 20, "TestC17Subs.unsubscribed_during_delivery": 60}),
     assumptions=["one applied event = one datastore write unless the record is byte-identical (collapsed on both sides); the harness advances the virtual clock between stimuli"],
 )
 
@@ -320,7 +322,7 @@ CHECKS["C19"] = dict(
         dict(test="TestC13Migrate", quick=24, thorough=480, per_shard=6),
         dict(test="TestC17Subs", quick=24, thorough=480, per_shard=6),
     ],
-    floors=dict(any={"TestC19Logs.states_probed": 5000, "TestC19Logs.failed_sends": 300, "TestC19Logs.validation_results": 200, "TestC19Logs.logs_after_own_side_finished": 60, "TestC19Concurrent.operations": 800}),
+    floors=dict(any={"TestC19Logs.states_probed": 5000, "TestC19Logs.failed_sends": 300, "TestC19Logs.validation_results": 200, "TestC19Logs.logs_after_own_side_finished": 60, "TestC19Logs.responder_restarts": 100, "TestC19Concurrent.operations": 800}),
     assumptions=["for results carried by UpdateValidationStatus only 'sent => recorded exactly once' is asserted"],
 )
 
@@ -334,9 +336,10 @@ CHECKS["C01"] = dict(
           "quiescence, IF the initiator is Completed and the responder had accepted: responder Completed and applied its own completion, every selected block in the receiver's "
           "store byte-identical, Received(receiver) == Queued(sender) == unique payload size. Cases where the initiator does not complete are counted as trivial. "
           "distinct = (direction, scenario, store config, final statuses, cuts, size class)."),
-    parts=[dict(test="TestC01E2E", quick=60, thorough=3000, per_shard=4, watchdog=180)],
+    parts=[dict(test="TestC01E2E", quick=60, thorough=3000, per_shard=4, watchdog=180),
+           dict(test="TestC01Late", quick=48, thorough=2400, per_shard=12)],
     floors=dict(any={"TestC01E2E.initiator_completed": 36, "TestC01E2E.limit_raises": 5, "TestC01E2E.finalization_rounds": 5, "TestC01E2E.completed_through_restart": 2,
-                     "TestC01E2E.blocks": 300, "TestC01E2E.restarts_before_first_block": 4}),
+                     "TestC01E2E.blocks": 300, "TestC01E2E.restarts_before_first_block": 4, "TestC01Late.initiator_completed": 24, "TestC01Late.late_update_during_complete_send": 8}),
     assumptions=["libp2p mocknet and in-memory blockstores stand in for real networks/disks; graphsync is the only transport"],
 )
 
@@ -360,10 +363,10 @@ CHECKS["C20"] = dict(
         dict(test="TestC20Transport", quick=12, thorough=300, per_shard=3, gomaxprocs=8, max_shards=4),
         dict(test="TestC20Monitor", quick=8, thorough=200, per_shard=4, gomaxprocs=8, max_shards=2),
         dict(test="TestC20E2E", quick=8, thorough=200, per_shard=2, watchdog=200),
-        dict(test="TestC20Hazard", quick=12, thorough=96, per_shard=4),
+        dict(test="TestC20Hazard", quick=14, thorough=112, per_shard=7),
     ],
     floors=dict(any={"TestC20Manager.operations": 8000, "TestC20Manager.reentrant_calls": 300, "TestC20Transport.operations": 8000, "TestC20Monitor.events": 5000,
-                     "TestC20E2E.transfers": 30, "TestC20Hazard.hazard.hook-overlapping-ending": 2, "TestC20Hazard.hazard.pause-reached-graphsync-with-message-queued": 4}),
+                     "TestC20E2E.transfers": 30, "TestC20Hazard.hazard.hook-overlapping-ending": 2, "TestC20Hazard.hazard.pause-reached-graphsync-with-message-queued": 4, "TestC20Hazard.hazard.stop-vs-limit-reports": 100}),
     assumptions=["Transport.ChannelsForPeer (diagnostic accessor, unsynchronised read of the current request id) is outside the surface the property lists and is not driven",
                  "a hang verdict needs a stable, fully parked goroutine picture; a busy process is inconclusive"],
 )
